@@ -46,7 +46,9 @@ class _IMTLGWeighting(_Weighting):
             v = torch.ones(matrix.shape[0], device=matrix.device, dtype=matrix.dtype)
 
         v_sum = v.sum()
-        if v_sum.abs() < 1e-12:
+        # v scales like the inverse of the matrix and d like the matrix: compare a scale-free
+        # quantity to the threshold, so that the aggregation stays positively homogeneous.
+        if v_sum.abs() * d.sum() < 1e-12:
             weights = torch.zeros_like(v)
         else:
             weights = v / v_sum
